@@ -23,9 +23,10 @@ from .sym import Term, leaves
 
 
 class Deps:
-    def __init__(self, fa: FA, control: bool = True):
+    def __init__(self, fa: FA, control: bool = True, asserts: bool = True):
         self.fa = fa
         self.control = control
+        self.asserts = asserts  # False: an assert that dominates a definition does not count as a control dependence
         self._memo: Dict[Tuple[str, int], FrozenSet[Term]] = {}
         self._active: Set[Tuple[str, int]] = set()
 
@@ -93,6 +94,8 @@ class Deps:
                 for t_, lab in cfg.control_predicates(n):
                     tn = cfg.nodes[t_]
                     if tn.kind == "test":
+                        if not self.asserts and isinstance(tn.owner, ast.Assert):
+                            continue
                         out |= self.of(tn.ast, t_)
                     elif tn.kind == "next":
                         out |= self.of(tn.owner.iter, cfg.stmt_node[tn.owner])
@@ -141,6 +144,8 @@ class Deps:
                 for t_, lab in cfg.control_predicates(d):
                     tn = cfg.nodes[t_]
                     if tn.kind == "test":
+                        if not self.asserts and isinstance(tn.owner, ast.Assert):
+                            continue
                         out |= self.of(tn.ast, t_)
                     elif tn.kind == "next":
                         out |= self.of(tn.owner.iter, cfg.stmt_node[tn.owner])
